@@ -113,6 +113,14 @@ class ExprMixin:
         self.rules['temporary-for-reference-arg'] += 1
         return '&' + tn
 
+    def etype(self, node):
+        """C-side type of an expression; honours per-variable container overrides (unit 'local_caps')"""
+        c = self.skip(node)
+        if c.get('kind') == 'DeclRefExpr':
+            o = self.var_ty.get(c['referencedDecl']['id'])
+            if o is not None: return o
+        return self.tyq(node['type'])
+
     # ------------------------------------------------------------ main dispatch
     def expr(self, n, rvalue=False):
         k = n.get('kind')
@@ -150,6 +158,10 @@ class ExprMixin:
     def e_ConstantExpr(self, n): return self.expr(n['inner'][0])
     def e_CXXBindTemporaryExpr(self, n): return self.expr(n['inner'][0])
     def e_SubstNonTypeTemplateParmExpr(self, n): return self.expr(n['inner'][-1])
+
+    def e_CXXRewrittenBinaryOperator(self, n):
+        self.rules['rewritten-operator(!=)'] += 1
+        return self.expr(n['inner'][0])
 
     def e_CXXThisExpr(self, n):
         return 'this_' if self.this_mode == 'ptr' else '(&this_v)'
@@ -225,7 +237,12 @@ class ExprMixin:
     def static_var(self, d):
         """static data member / namespace-scope constant -> file-scope static const"""
         owner = self.owner_record(d)
-        cn = (self.rec_cname(owner) + '_' if owner is not None and owner.get('name') else '') + d['name']
+        par = self.parent.get(d['id'], {})
+        if par.get('kind') == 'DeclStmt':     # function-local static: qualify by the function
+            cn = '%s_%s' % (self.cur_cname, d['name'])
+            self.local_statics = getattr(self, 'local_statics', {}); cn = self.local_statics.setdefault(d['id'], cn)
+        else:
+            cn = (self.rec_cname(owner) + '_' if owner is not None and owner.get('name') else '') + d['name']
         if cn not in self.statics:
             self.statics[cn] = None
             init = [c for c in d.get('inner', []) if 'valueCategory' in c or c.get('kind', '').endswith('Expr') or c.get('kind', '').endswith('Literal') or c.get('kind', '').endswith('Operator')]
@@ -245,7 +262,33 @@ class ExprMixin:
         return cn
 
     def static_table(self, cn, t, d, init):
-        raise Unsupported('static non-scalar %s' % cn)
+        """static lookup table initialised from an initializer list -> static const C aggregate"""
+        core = self.skip(init)
+        il = None
+        for a in core.get('inner', []):
+            a2 = self.skip(a)
+            if a2.get('kind') == 'CXXStdInitializerListExpr': il = self.skip(a2['inner'][0])
+        if il is None or t.kind not in ('uset', 'pset'):
+            raise Unsupported('static non-scalar %s (%s)' % (cn, t.kind))
+        save = (self.vars, self.pre); self.vars = {}; self.pre = []
+        try:
+            els = il.get('inner', [])
+            if t.kind == 'uset':
+                vals = [self.expr(e, rvalue=True) for e in els]
+                txt = 'static const %s %s = { {%s}, %d, 0 };' % (t.c, cn, ', '.join(vals), len(vals))
+            else:
+                aa = []; bb = []
+                for e in els:
+                    pe = self.skip(e)
+                    parts = [x for x in pe.get('inner', [])]
+                    if len(parts) != 2: raise Unsupported('pair initializer in static table %s' % cn)
+                    aa.append(self.expr(parts[0], rvalue=True)); bb.append(self.expr(parts[1], rvalue=True))
+                txt = 'static const %s %s = { {%s}, {%s}, %d, 0 };' % (t.c, cn, ', '.join(aa), ', '.join(bb), len(aa))
+        finally:
+            self.vars, self.pre = save
+        self.rules['static-lookup-table'] += 1
+        cap = self.containers[t.c].rsplit(',', 1)[1].rstrip(')')
+        return txt + '\n_Static_assert(%d <= (%s), "static table %s exceeds the configured capacity");' % (len(els), cap, cn)
 
     def e_MemberExpr(self, n):
         base = n['inner'][0]
@@ -283,7 +326,9 @@ class ExprMixin:
         if op in ('&&', '||'):
             a = self.expr(l)
             npre = len(self.pre)
-            b = self.expr(r)
+            self.inline_checks += 1
+            try: b = self.expr(r)
+            finally: self.inline_checks -= 1
             if len(self.pre) != npre:
                 raise Unsupported('temporary needed inside short-circuit operand at ' + self.where(n))
             return '(%s %s %s)' % (a, op, b)
@@ -304,7 +349,9 @@ class ExprMixin:
             self.rules['source-assert'] += 1
             return 'CC_SRC_ASSERT(%s)' % self.expr(c)
         cc = self.expr(c); npre = len(self.pre)
-        aa = self.expr(a); bb = self.expr(b)
+        self.inline_checks += 1
+        try: aa = self.expr(a); bb = self.expr(b)
+        finally: self.inline_checks -= 1
         if len(self.pre) != npre: raise Unsupported('temporary inside ?: at ' + self.where(n))
         return '(%s ? %s : %s)' % (cc, aa, bb)
 
@@ -393,14 +440,50 @@ class ExprMixin:
             if len(args) == 1: return '%s_some(%s)' % (t.c, self.convert_to(t.elem, args[0]))
             raise Unsupported('optional in-place construction')
         if t.kind == 'vec':
-            if not args: return '%s_new()' % t.c
-            raise Unsupported('vector constructor with %d args at %s' % (len(args), self.where(n)))
+            args2 = [a for a in args if a.get('kind') != 'CXXDefaultArgExpr']
+            if not args2: return '%s_new()' % t.c
+            if len(args2) == 2 and t.elem.kind == 'scalar':
+                self.rules['vector(n,value)'] += 1
+                return '%s_filled((size_t)%s, %s)' % (t.c, self.expr(args2[0]), self.expr(args2[1]))
+            raise Unsupported('vector constructor with %d args at %s' % (len(args2), self.where(n)))
+        if t.kind in ('uset', 'umap'):
+            args2 = [a for a in args if a.get('kind') != 'CXXDefaultArgExpr']
+            if not args2: return '%s_new()' % t.c
+            il = self.skip(args2[0])
+            if t.kind == 'uset' and il.get('kind') == 'CXXStdInitializerListExpr':
+                lst = self.skip(il['inner'][0])
+                els = lst.get('inner', [])
+                if 1 <= len(els) <= 2:
+                    self.rules['unordered_set{initializer-list}'] += 1
+                    return '%s_of%d(%s)' % (t.c, len(els), ', '.join(self.expr(e, rvalue=True) for e in els))
+            raise Unsupported('%s constructor at %s' % (t.c, self.where(n)))
         if t.kind == 'pair':
             if len(args) == 2: return '%s_make(%s, %s)' % (t.c, self.expr(args[0]), self.expr(args[1]))
         if t.kind == 'rec':
             return self.construct_record(t, args, n, ctor_type)
         h = self.u_hook('construct', t, args, n)
         if h is not None: return h
+        if t.kind == 'opaque':
+            args2 = [a for a in args if a.get('kind') != 'CXXDefaultArgExpr']
+            self.rules['opaque-construction'] += 1
+            suffix = []; atxt = []; ptxt = []
+            for i, a in enumerate(args2):
+                at = self.tyq(a['type']); suffix.append(cident(at.c))
+                a0 = self.skip(a)
+                if a0.get('kind') == 'StringLiteral':
+                    atxt.append(a0['value']); ptxt.append('const char* a%d' % i); suffix[-1] = 'lit'
+                elif self.big(at) or at.kind == 'opaque':
+                    if a0.get('valueCategory') == 'lvalue' or a0.get('kind') in ('DeclRefExpr', 'MemberExpr'):
+                        atxt.append(self.addr(self.expr(a0)))
+                    else:
+                        tn = self.tmp('arg'); self.pre.append('%s %s = %s;' % (at.c, tn, self.expr(a))); atxt.append('&' + tn)
+                    ptxt.append('const %s* a%d' % (at.c, i))
+                else:
+                    atxt.append(self.expr(a, rvalue=True)); ptxt.append('%s a%d' % (at.c, i))
+            cn = '%s_ctor%s' % (t.c, ('__' + '_'.join(suffix)) if suffix else '')
+            self.autostubs.setdefault(cn, '%s %s(%s);' % (t.c, cn, ', '.join(ptxt) or 'void'))
+            self.fninfo.setdefault(cn, {'qname': t.c + '::ctor', 'stub': True})
+            return '%s(%s)' % (cn, ', '.join(atxt))
         raise Unsupported('construction of %s (%s) at %s' % (t.c, t.kind, self.where(n)))
 
     def convert_to(self, t, arg):
@@ -492,7 +575,7 @@ class ExprMixin:
         if me.get('kind') != 'MemberExpr': raise Unsupported('member call through %s' % me.get('kind'))
         obj = me['inner'][0]
         d = self.byid.get(me.get('referencedMemberDecl'))
-        ot = self.tyq(obj['type'])
+        ot = self.etype(obj)
         if ot.kind == 'ptr' and me.get('isArrow'): otk = ot.elem
         else: otk = ot
         if d is not None and d.get('kind') in ('CXXMethodDecl', 'CXXConversionDecl') and otk.kind == 'rec' and not self.is_external(d):
@@ -512,7 +595,7 @@ class ExprMixin:
         fn = self.want(d)
         owner = self.owner_record(d)
         a = self.call_args(d, args)
-        if d.get('storageClass') == 'static':
+        if self.is_static_method(d):
             return self.wrap_ref_result(d, '%s(%s)' % (fn, ', '.join(a)))
         byptr = (not self.is_const_method(d)) or self.this_by_pointer(owner)
         if byptr:
@@ -546,7 +629,7 @@ class ExprMixin:
             if d.get('kind') == 'CXXMethodDecl':
                 return self.autostub_call(d, (args[0], False), args[1:], n)
             return self.autostub_call(d, None, args, n)
-        ot = self.tyq(args[0]['type'])
+        ot = self.etype(args[0])
         h = self.lib_operator(ot, name[len('operator'):].strip(), args, n, rvalue)
         if h is not None: return h
         raise Unsupported('operator %s on %s (%s) at %s' % (name, ot.c, ot.kind, self.where(n)))
